@@ -154,6 +154,45 @@ def with_reverse_proc(mans, project, fp):
     return mans
 
 
+def ignored_only_files(graph):
+    """Files all of whose graph items are ignored (while other files hold items that are not)."""
+    by = {}
+    for it in graph['items']:
+        by.setdefault(it['file'], []).append(it['ignored'])
+    return [f for f, flags in by.items() if all(flags)] if any(not all(v) for v in by.values()) else []
+
+
+def ignore_variants(project, config):
+    """Configurations derived from `config` whose default ignore list names one called procedure that is alone in its
+    file: candidates for a scheduler graph with an ignored-only file."""
+    called = {c for p in project['procs'] for c in p['calls'] if c != p['name']}
+    seeds = {s_['local'] for s_ in config['seeds']}
+    out = []
+    for t in project['procs']:
+        alone = sum(1 for q in project['procs'] if q['file'] == t['file']) == 1
+        if t['name'] in called and t['name'] not in seeds and alone:
+            c2 = json.loads(json.dumps(config))
+            c2['ignore'] = [L.key(t['name'])]
+            c2['disable'], c2['block'], c2['expand'] = [], [], True
+            c2['routines'] = [r for r in c2['routines'] if not (r['hasIgnore'] or r['hasDisable'] or r['hasBlock'] or r['hasExpand'])]
+            out.append(c2)
+    return out
+
+
+def M(filter_, reverse, filegraph, procign, plan):
+    return {'filter': list(filter_), 'reverse': reverse, 'filegraph': filegraph, 'procign': procign, 'plan': plan}
+
+
+# pairs of transformations applied one after the other to ONE scheduler (second application always on the file graph)
+SEQUENCES = [
+    (M(('proc',), False, True, False, False), M(('proc',), False, True, True, False)),          # same filter, ignored off -> on
+    (M(('proc',), False, True, True, True), M(('proc',), True, True, False, True)),             # on -> off, reverse mix
+    (M(('proc', 'mod'), True, False, False, False), M(('proc', 'mod'), False, True, True, False)),   # item graph -> file graph
+    (M(('proc', 'mod'), False, True, False, True), M(('proc',), False, True, True, True)),      # different item filters
+    (M(('proc', 'mod'), False, True, True, False), M(('proc', 'mod'), True, True, False, True)),
+]
+
+
 def build(project, config, root, layout, fp, ei, plain):
     shutil.rmtree(root, ignore_errors=True)
     obs, sched, paths = L.run_scheduler(project, config, root, random.Random(layout), full_parse=fp, enable_imports=ei, plain=plain)
@@ -207,10 +246,40 @@ def run(ctx):
             shutil.rmtree(root, ignore_errors=True)
         return len(mans)
 
+    npairs = [0]
+
+    def add_sequences(project, config, layout, origin, only=None):
+        """Every pair of SEQUENCES on a freshly built scheduler; both applications are recorded and judged independently
+        (the expected record of the second does not depend on the first); the second carries seq=2 and its predecessor."""
+        for k, (m1, m2) in enumerate(SEQUENCES):
+            if only is not None and (m1, m2) != only:
+                continue
+            root = os.path.join(ctx.work, f'seq{len(runs)}')
+            try:
+                graph, sched, paths = build(project, config, root, layout, True, True, k % 2 == 0)
+            except Exception:  # pylint: disable=broad-except
+                continue
+            if not ignored_only_files(graph):
+                shutil.rmtree(root, ignore_errors=True)
+                return False
+            P = L.tla_project(project)
+            for seq, man, pre in ((1, m1, []), (2, m2, [m1])):
+                visits, raised = process_case(sched, graph, paths, man)
+                runs.append(({'P': project, 'C': config, 'fp': True, 'ei': True, 'layout': layout, 'plain': k % 2 == 0, 'origin': origin,
+                              'man': man, 'seq': seq, 'pre': pre},
+                             {'P': P, 'C': config, 'graph': graph, 'man': man, 'visits': visits, 'raised': raised, 'payload': True}))
+            npairs[0] += 1
+            shutil.rmtree(root, ignore_errors=True)
+        return True
+
     if ctx.replay:
         c = ctx.replay['case']
-        add_all(L.normalize_project(c['P']), L.normalize_config(c['C']), c['fp'], c['ei'], c.get('layout', 0), c.get('plain', True),
-                'replay', [c['man']])
+        if c.get('seq') == 2:
+            add_sequences(L.normalize_project(c['P']), L.normalize_config(c['C']), c.get('layout', 0), 'replay', only=(c['pre'][0], c['man']))
+            runs[:] = runs[-1:]
+        else:
+            add_all(L.normalize_project(c['P']), L.normalize_config(c['C']), c['fp'], c['ei'], c.get('layout', 0), c.get('plain', True),
+                    'replay', [c['man']])
     else:
         # ---- 2. the repository's traversal-order expectation (test_scheduler_traversal_order) is an instance
         #         of the rule "any topological order"; it is replayed through the corpus projects of C21
@@ -252,7 +321,20 @@ def run(ctx):
         for i, (P, C) in enumerate(legal):
             fp = i % 4 != 0
             add_all(P, C, fp, i % 3 != 0, ctx.seed * 104729 + i, False, 'seeded', with_reverse_proc(manifests(ctx.rng, 4 if quick else 5, fp, i % 3 != 0), P, fp))
-        ctx.cover['cases'] = {'corpus': ncorpus, 'tlc_small': nsmall, 'seeded': len(runs) - ncorpus - nsmall}
+        nsingle = len(runs)
+        # ---- 5a. sequences of two transformations on one scheduler, on graphs with an ignored-only file
+        want = 8 if quick else 40
+        pool = [(L.normalize_project(c['P']), L.normalize_config(c['C'])) for c in small] + list(legal)
+        for i, (P, C) in enumerate(pool):
+            if npairs[0] >= want * len(SEQUENCES):
+                break
+            for c2 in ignore_variants(P, C)[:2]:
+                if add_sequences(P, c2, ctx.seed * 31 + i, 'sequence'):
+                    break
+        ctx.cover['sequence_pairs'] = npairs[0]
+        if npairs[0] < (want * len(SEQUENCES)) // 2:
+            raise MachineryError(f'vacuity: only {npairs[0]} transformation pairs on graphs with an ignored-only file')
+        ctx.cover['cases'] = {'corpus': ncorpus, 'tlc_small': nsmall, 'seeded': nsingle - ncorpus - nsmall, 'sequence': len(runs) - nsingle}
 
     phases['generate_and_run_loki'] = round(ctx.elapsed() - sum(phases.values()), 1)
     # ---- 5. TLC decides
@@ -283,12 +365,15 @@ def run(ctx):
             graph, sched, paths = build(P, C, root, 0, case['fp'], case['ei'], True)
         except Exception as e:  # pylint: disable=broad-except
             return {'graph': {'items': [], 'edges': []}, 'visits': [], 'raised': f'build:{type(e).__name__}'}
+        for pre in case.get('pre', []):
+            process_case(sched, graph, paths, pre)
         visits, raised = process_case(sched, graph, paths, case['man'])
         return {'graph': graph, 'visits': visits, 'raised': raised}
 
     C21.report_rejections(
         ctx, rejected, runs,
-        key_of=lambda cc, case: f"{cc}:{man_sig(case['man'])}:{C21.signature(case['P'], case['C'])}",
+        key_of=lambda cc, case: (f"{cc}:" + (f"seq=2:after[{man_sig(case['pre'][0])}]:" if case.get('seq') == 2 else '')
+                                 + f"{man_sig(case['man'])}:{C21.signature(case['P'], case['C'])}"),
         what_of=lambda i, case, t, was: (
             f'probe trace rejected by Trace_SchedProcess clause `{verdicts[i][1]}` at visit {verdicts[i][2]} (full_parse={case["fp"]}, '
             f'enable_imports={case["ei"]}, origin {case["origin"]}, {was}); visits {json.dumps(t["visits"])[:300]} {t["raised"]}'),
@@ -310,6 +395,9 @@ def run(ctx):
         'order clause (item graph): a selected item may be visited only after all selected items from which it is reachable in the FULL graph '
         '(also through non-selected items such as generic interfaces, modules, ignored items); reverse: the converse; '
         'any such order is accepted; in file-graph mode only once/order is checked for the file visits (no role/mode/targets)',
+        'sequences: pairs of probes on one scheduler (file graph x file graph with different process_ignored_items / item filters / '
+        'reverse flags, item graph then file graph) on graphs with an ignored-only file; each application is judged independently; '
+        'the second application is always a file-graph traversal and its key carries seq=2:after[<first manifest>]',
         'TLC and the TLA+ modules are trusted; python renders, runs Loki and records only',
     ]
 
